@@ -1,9 +1,9 @@
 package props
 
 import (
-	"errors"
 	"bytes"
 	"encoding/base64"
+	"errors"
 	"fmt"
 	"math/rand"
 	"sort"
